@@ -13,10 +13,12 @@ import (
 	"sort"
 	"strings"
 	"sync"
+	"sync/atomic"
 	"testing"
 	"time"
 
 	kafka "github.com/segmentio/kafka-go"
+	"github.com/segmentio/kafka-go/protocol/createtopics"
 	"github.com/segmentio/kafka-go/protocol/listoffsets"
 	"pgregory.net/rapid"
 
@@ -29,7 +31,7 @@ import (
 )
 
 func init() {
-	ev.Timed("c09/write-cancel-not-honoured", "c09/cancel-not-honoured", "c09/blocked-fetch-survives-close", "c09/next-after-close")
+	ev.Timed("c09/roundtrip-cancel", "c09/write-cancel-not-honoured", "c09/cancel-not-honoured", "c09/blocked-fetch-survives-close", "c09/next-after-close")
 }
 
 func TestMain(m *testing.M) { ev.Main(m, "C09") }
@@ -744,6 +746,7 @@ type transportCase struct {
 }
 
 func runTransport(tb ev.TB, c transportCase) (labels []string, nontrivial bool) {
+	var stallMetadata atomic.Bool
 	nw := memnet.New()
 	cl := fakecluster.New(nw, 1)
 	defer cl.Close()
@@ -752,9 +755,17 @@ func runTransport(tb ev.TB, c transportCase) (labels []string, nontrivial bool) 
 		if r.ApiKey == 2 && c.Stall == "response" {
 			return &fakecluster.Action{NoResponse: true}
 		}
+		if r.ApiKey == 3 && c.Stall == "metadata-after-create" && stallMetadata.Load() {
+			// the topic is created, but the brokers stop answering metadata requests: the round trip, which waits for the
+			// new topic to show up in the transport's metadata, can only be ended by its context
+			return &fakecluster.Action{NoResponse: true}
+		}
 		return nil
 	})
 	tr := &kafka.Transport{Dial: nw.Dial, MetadataTTL: 50 * time.Millisecond, DialTimeout: 5 * time.Second}
+	if c.Stall == "metadata-after-create" {
+		tr.MetadataTTL = 6 * time.Second // (also how long the transport's own metadata requests wait for an answer)
+	}
 	defer tr.CloseIdleConnections()
 	// warm up: metadata known
 	wctx, wcancel := context.WithTimeout(context.Background(), 3*time.Second)
@@ -768,12 +779,13 @@ func runTransport(tb ev.TB, c transportCase) (labels []string, nontrivial bool) 
 		tr.CloseIdleConnections()
 		nw.Blackhole("b1.fake:9092", true)
 	}
+	stallMetadata.Store(true)
 	var wg sync.WaitGroup
 	var mu sync.Mutex
 	var bad string
 	for i := 0; i < c.Calls; i++ {
 		wg.Add(1)
-		go func() {
+		go func(i int) {
 			defer wg.Done()
 			var ctx context.Context
 			var cancel context.CancelFunc
@@ -786,6 +798,16 @@ func runTransport(tb ev.TB, c transportCase) (labels []string, nontrivial bool) 
 			}
 			defer cancel()
 			t0 := time.Now()
+			if c.Stall == "metadata-after-create" {
+				_, err := tr.RoundTrip(ctx, kafka.TCP("b1.fake:9092"), &createtopics.Request{TimeoutMs: 1000, Topics: []createtopics.RequestTopic{{Name: fmt.Sprintf("made-%d", i), NumPartitions: 1, ReplicationFactor: 1}}})
+				took := time.Since(t0)
+				mu.Lock()
+				defer mu.Unlock()
+				if took > d+2*time.Second {
+					bad = fmt.Sprintf("a CreateTopics round trip waiting for the new topic to appear in the metadata (which the brokers no longer serve) returned %v after its context ended (err %v)", took-d, err)
+				}
+				return
+			}
 			_, err := tr.RoundTrip(ctx, kafka.TCP("b1.fake:9092"), &listoffsets.Request{ReplicaID: -1, Topics: []listoffsets.RequestTopic{{Topic: "t", Partitions: []listoffsets.RequestPartition{{Partition: 0, CurrentLeaderEpoch: -1, Timestamp: -1}}}}})
 			took := time.Since(t0)
 			mu.Lock()
@@ -804,7 +826,7 @@ func runTransport(tb ev.TB, c transportCase) (labels []string, nontrivial bool) 
 					bad = fmt.Sprintf("a round trip whose context ended returned %v, want (an error wrapping) the context's error", err)
 				}
 			}
-		}()
+		}(i)
 	}
 	done := make(chan struct{})
 	go func() { wg.Wait(); close(done) }()
@@ -824,7 +846,7 @@ func runTransport(tb ev.TB, c transportCase) (labels []string, nontrivial bool) 
 func TestTransportCancel(t *testing.T) {
 	rapid.Check(t, func(t *rapid.T) {
 		c := transportCase{
-			Stall:    rapid.SampledFrom([]string{"response", "response", "dial-blackhole", "none"}).Draw(t, "stall"),
+			Stall:    rapid.SampledFrom([]string{"response", "response", "dial-blackhole", "metadata-after-create", "none"}).Draw(t, "stall"),
 			CancelUs: rapid.SampledFrom([]int{100, 2000, 20000, 80000}).Draw(t, "cancelUs"),
 			Deadline: rapid.Bool().Draw(t, "deadline"),
 			Calls:    rapid.IntRange(1, 6).Draw(t, "calls"),
